@@ -1,9 +1,16 @@
 (* Round trip of the JSON (EST) codec of policies (Impl/PolicyJson.v) on JSON trees:
-     decode (encode p) = p  up to the normal form [normj] the JSON format itself imposes.
-   - decode_encode_expr : expressions
-   - dec_enc_policy     : whole policies (with annotations)
-   - normj_idempotent   : the second round trip is the identity
-   - eval_normj         : the normal form evaluates like the original expression *)
+     decode (encode p) = p  up to the normal form [normj] the JSON format itself imposes
+     (decimal / ip literal VALUES are written as extension calls; record-literal entries and annotations are a map: sorted by key,
+      the last of several equal keys wins; the empty like-pattern is written as one empty literal component).
+   - decode_encode_expr    : expressions (hypothesis expr_okj)
+   - dec_enc_policy        : whole policies with annotations (hypothesis policy_okj)
+   - normj_idempotent, okj_normj, second_roundtrip : the normal form is a fixed point; the second round trip is the identity
+   - eval_normj            : the normal form evaluates like the original expression (hypothesis sem_okj: decimal / ip literals print
+                             to a text that parses back)
+   - dec_enc_pattern, compile_pattern_canon : patterns round-trip iff they are in NewPattern's normal form (pat_canon), which every
+                             pattern built by compile_pattern is
+   - pj_ex_*               : computed witnesses that each hypothesis is needed
+   Section hypotheses: ip_roundtrip (net/netip's printer is not modelled) and ord_id (literal sets keep their member order). *)
 From Coq Require Import ZArith List Bool Lia Arith String Permutation.
 Import ListNotations.
 From Cedar Require Import Base.Int64 Base.Json Lang.Value Generated.Tables Impl.Like Lang.Expr Impl.Eval Impl.Decimal Impl.IPAddr Impl.ValueJson
@@ -421,6 +428,70 @@ Proof. destruct p; reflexivity. Qed.
 Lemma norm_pat_canon p : pat_canon p = true -> pat_canon (norm_pat p) = true.
 Proof. destruct p; [reflexivity|]. intros H; exact H. Qed.
 
+(* ---- pat_canon is exactly the image of NewPattern: every compiled pattern satisfies it ---- *)
+
+Definition inner_ok (c : pcomp) : bool := fst c && negb (is_nil (snd c)).
+Definition first_ok (c : pcomp) : bool := negb (fst c) || negb (is_nil (snd c)).
+
+(* invariant of compile_rev's accumulator (the pattern built so far, reversed) *)
+Definition racc_ok (acc : list pcomp) : bool :=
+  match acc with
+  | [] => true
+  | c :: acc' => match rev acc' with [] => true | c1 :: mid => fst c && first_ok c1 && forallb inner_ok mid end
+  end.
+
+Lemma pat_tail_ok_snoc p c : pat_tail_ok (p ++ [c]) = forallb inner_ok p && fst c.
+Proof.
+  induction p as [|[w l] p IH].
+  - destruct c as [w l]. cbn [app pat_tail_ok forallb fst is_nil]. rewrite orb_true_r, !andb_true_r. reflexivity.
+  - cbn [app pat_tail_ok forallb]. rewrite IH. unfold inner_ok at 1. cbn [fst snd].
+    replace (is_nil (p ++ [c])) with false by (destruct p; reflexivity). rewrite orb_false_r, andb_assoc. reflexivity.
+Qed.
+
+Lemma racc_ok_canon acc : racc_ok acc = true -> pat_canon (rev acc) = true.
+Proof.
+  destruct acc as [|c acc']; [reflexivity|]. cbn [racc_ok rev].
+  destruct (rev acc') as [|[w1 l1] mid].
+  - intros _. destruct c as [[|] l]; cbn [app pat_canon pat_tail_ok is_nil]; [rewrite orb_true_r|]; reflexivity.
+  - rewrite !andb_true_iff. intros [[Hc H1] Hmid]. cbn [app pat_canon]. destruct w1.
+    + cbn [pat_tail_ok andb]. rewrite pat_tail_ok_snoc, Hmid, Hc.
+      unfold first_ok in H1. cbn [fst snd negb orb] in H1. rewrite H1. reflexivity.
+    + rewrite pat_tail_ok_snoc, Hmid, Hc. reflexivity.
+Qed.
+
+Lemma racc_ok_push c acc : racc_ok (c :: acc) = true -> first_ok c = true -> racc_ok ((true, []) :: c :: acc) = true.
+Proof.
+  cbn [racc_ok rev]. intros H Hc. destruct (rev acc) as [|c1 mid]; cbn [app].
+  - cbn [fst forallb andb]. rewrite Hc. reflexivity.
+  - rewrite !andb_true_iff in H. destruct H as [[Hw H1] Hmid]. cbn [fst andb]. rewrite H1, forallb_app, Hmid.
+    cbn [forallb andb]. unfold inner_ok. rewrite Hw. unfold first_ok in Hc. rewrite Hw in Hc. cbn [negb orb] in Hc.
+    rewrite Hc. reflexivity.
+Qed.
+
+Lemma compile_rev_ok : forall cs acc, racc_ok acc = true -> racc_ok (compile_rev cs acc) = true.
+Proof.
+  induction cs as [|[s|] cs IH]; intros acc H; cbn [compile_rev]; [exact H| |].
+  - destruct acc as [|[w l] acc']; apply IH; [reflexivity|]. exact H.
+  - destruct acc as [|[w l] acc']; [apply IH; reflexivity|].
+    destruct (negb w || negb match l with [] => true | _ :: _ => false end) eqn:E; apply IH; [|exact H].
+    apply racc_ok_push; [exact H|exact E].
+Qed.
+
+Theorem compile_pattern_canon cs : pat_canon (compile_pattern cs) = true.
+Proof. unfold compile_pattern. apply racc_ok_canon, compile_rev_ok. reflexivity. Qed.
+
+(* hence pat_canon is also necessary: whatever dec_pattern returns satisfies it *)
+Lemma dec_pattern_canon j p : dec_pattern j = DOk p -> pat_canon p = true.
+Proof.
+  destruct j as [| | | | |l|l]; try discriminate. destruct l as [|x l]; [discriminate|].
+  rewrite dec_pattern_arr by discriminate.
+  destruct (all_some (map pj_comp (x :: l))) as [cs|]; [|discriminate].
+  intros H. injection H as <-. apply compile_pattern_canon.
+Qed.
+
+Corollary pat_canon_necessary p : dec_pattern (enc_pattern p) = DOk p -> pat_canon p = true.
+Proof. apply dec_pattern_canon. Qed.
+
 (* ------------------------------------------------------------------------------------------ *)
 (* Scopes and the policy envelope (sub-trees abstract)                                         *)
 (* ------------------------------------------------------------------------------------------ *)
@@ -784,9 +855,6 @@ Section PolicyJsonProofs.
       apply pj_map_ext_Forall. exact IH.
   Qed.
 
-  Lemma okj_normj_pat p : pat_canon p = true -> pat_canon (norm_pat p) = true.
-  Proof. apply norm_pat_canon. Qed.
-
   (* ---- no object of an encoded document has a repeated key ---- *)
 
   Lemma jdups_enc_value : forall v, json_safe ip_ok v = true -> jdups (encode_value print_ip ord v) = false.
@@ -1018,8 +1086,72 @@ Section PolicyJsonProofs.
   Qed.
 End PolicyJsonProofs.
 
+(* ------------------------------------------------------------------------------------------ *)
+(* The hypotheses are needed, the normal form is real (computed on the model)                  *)
+(* ------------------------------------------------------------------------------------------ *)
+
+Definition pj_no_ip : bool -> Z -> Z -> str := fun _ _ _ => [].
+Definition pj_id : list json -> list json := fun l => l.
+Notation pj_rt e := (decode_expr (enc_expr pj_no_ip pj_id e)).
+
+(* the normal form: decimal literal values become calls, record entries become a map, the empty pattern gets its one component *)
+Example pj_ex_decimal : pj_rt (ELit (VDecimal 12500)) = DOk (ECall (s_of "decimal") [ELit (VString (s_of "1.25"))]).
+Proof. vm_compute. reflexivity. Qed.
+Example pj_ex_record :
+  pj_rt (ERecord [(s_of "b", ELit (VLong 1)); (s_of "a", ELit (VLong 2)); (s_of "b", ELit (VLong 3))]) =
+  DOk (ERecord [(s_of "a", ELit (VLong 2)); (s_of "b", ELit (VLong 3))]).
+Proof. vm_compute. reflexivity. Qed.
+Example pj_ex_empty_pattern : pj_rt (ELike (EVar VContext) []) = DOk (ELike (EVar VContext) [(false, [])]).
+Proof. vm_compute. reflexivity. Qed.
+
+(* outside expr_okj the round trip fails *)
+Example pj_ex_partial_error : pj_rt (EPartialError EType) = DErr.
+Proof. vm_compute. reflexivity. Qed.
+Example pj_ex_unknown_call : pj_rt (ECall (s_of "foo") []) = DErr.
+Proof. vm_compute. reflexivity. Qed.
+Example pj_ex_method_no_args : pj_rt (ECall (s_of "isIpv4") []) = DErr.
+Proof. vm_compute. reflexivity. Qed.
+Example pj_ex_call_named_like_a_key : pj_rt (ECall (s_of "Set") [ELit (VLong 1)]) = DOk (ESet [ELit (VLong 1)]).
+Proof. vm_compute. reflexivity. Qed.
+Example pj_ex_pattern_not_canonical :
+  pj_rt (ELike (EVar VContext) [(false, s_of "a"); (false, s_of "b")]) = DOk (ELike (EVar VContext) [(false, s_of "ab")]).
+Proof. vm_compute. reflexivity. Qed.
+Example pj_ex_pattern_double_wildcard :
+  pj_rt (ELike (EVar VContext) [(true, []); (true, s_of "b")]) = DOk (ELike (EVar VContext) [(true, s_of "b")]).
+Proof. vm_compute. reflexivity. Qed.
+(* a literal value outside json_safe: F17 (a record shaped like the extension escape) and an out-of-range long *)
+Example pj_ex_f17 :
+  pj_rt (ELit (VRecord [(s_of "__extn", VRecord [(s_of "arg", VString (s_of "1.0")); (s_of "fn", VString (s_of "decimal"))])])) =
+  DOk (ELit (VDecimal 10000)).
+Proof. vm_compute. reflexivity. Qed.
+Example pj_ex_long_range : pj_rt (ELit (VLong (2 ^ 63))) = DErr.
+Proof. vm_compute. reflexivity. Qed.
+(* a member order other than the identity permutes literal sets *)
+Example pj_ex_ord : decode_expr (enc_expr pj_no_ip (@rev json) (ELit (VSet [VLong 1; VLong 2]))) = DOk (ELit (VSet [VLong 2; VLong 1])).
+Proof. vm_compute. reflexivity. Qed.
+
+(* outside policy_okj: scopes the JSON format cannot express *)
+Definition pj_pol (sp sa sr : scope) : policy :=
+  {| p_effect := true; p_principal := sp; p_action := sa; p_resource := sr; p_conds := [] |}.
+Example pj_ex_principal_in_set : dec_policy (enc_policy pj_no_ip pj_id [] (pj_pol (SInSet [(s_of "T", s_of "a")]) SAll SAll)) = DErr.
+Proof. vm_compute. reflexivity. Qed.
+Example pj_ex_resource_in_empty_set : dec_policy (enc_policy pj_no_ip pj_id [] (pj_pol SAll SAll (SInSet []))) = DErr.
+Proof. vm_compute. reflexivity. Qed.
+Example pj_ex_action_is : dec_policy (enc_policy pj_no_ip pj_id [] (pj_pol SAll (SIs (s_of "T")) SAll)) = DErr.
+Proof. vm_compute. reflexivity. Qed.
+Example pj_ex_action_is_in : dec_policy (enc_policy pj_no_ip pj_id [] (pj_pol SAll (SIsIn (s_of "T") (s_of "T", s_of "a")) SAll)) = DErr.
+Proof. vm_compute. reflexivity. Qed.
+(* annotations are a map *)
+Example pj_ex_annots :
+  dec_policy (enc_policy pj_no_ip pj_id [(s_of "b", s_of "1"); (s_of "a", s_of "2"); (s_of "b", s_of "3")] (pj_pol SAll SAll SAll)) =
+  DOk ([(s_of "a", s_of "2"); (s_of "b", s_of "3")], pj_pol SAll SAll SAll).
+Proof. vm_compute. reflexivity. Qed.
+
 Print Assumptions decode_encode_expr.
 Print Assumptions dec_enc_policy.
 Print Assumptions normj_idempotent.
 Print Assumptions second_roundtrip.
 Print Assumptions eval_normj.
+Print Assumptions dec_enc_pattern.
+Print Assumptions compile_pattern_canon.
+Print Assumptions pat_canon_necessary.
